@@ -40,7 +40,7 @@ Pool(md, r, sr, fn) ==
   LET ms == {k \in 1..Len(c1) : c1[k].stem = "m"} IN
   LET hd == IF ms = {} THEN c1 ELSE SubSeq(c1, 1, (CHOOSE k \in ms : \A j \in ms : k <= j) - 1) IN
   own \cup { d \o <<Seg("m", "lua")>> : d \in Dirs }
-      \cup { hd \o <<Seg("m", "luau")>>, hd \o <<Seg("m", "")>> \o <<Seg("init", "luau")>> }
+      \cup { hd \o <<Seg("m", "luau")>>, hd \o <<Seg("m", "")>> \o <<Seg("init", "luau")>>, hd \o <<Seg("m", "")>> }   \* incl. the extension-less file `m`
 
 Init ==
   /\ mode \in {"path", "luau"}
